@@ -11,7 +11,7 @@ from .. import refcsv, jsdriver
 
 PROP = 'C20'
 LEVEL = 'exploration'
-RULE = ('Exhaustive: every input of n <= 5 (quick) / n <= 6 (thorough) bytes over {a, ", comma, LF, CR, #} x all 2^(n-1) byte partitions, delivered as separate '
+RULE = ('Exhaustive: every input of n <= 6 bytes (thorough: n = 7 for three stream-specific configurations) over {a, ", comma, LF, CR, #} x all 2^(n-1) byte partitions, delivered as separate '
         'Buffers by a Readable to rbql_csv.CSVRecordIterator(stream, null, ...), x {simple, quoted, quoted_rfc} x comment prefix {none, #} x encodings '
         '{utf-8, binary}; all partitions of UTF-8 samples with 2-, 3-, 4-byte characters, BOM and CRLF (<= 13 bytes), incl. invalid and truncated '
         'sequences; real files of 64 KiB +- 4 bytes and 200 KiB with a multi-byte character / CRLF / quoted field straddling offset 65536 read through '
@@ -102,7 +102,7 @@ def count_nontrivial(data, enc):
 def shard_enum(shard, nshards, tier, seed, scratch):
     stats = Stats()
     failures, seen = [], set()
-    maxn = 5 if tier == 'quick' else 6
+    maxn = 6
     drv = jsdriver.Driver()
     try:
         batch = []
@@ -129,6 +129,26 @@ def shard_enum(shard, nshards, tier, seed, scratch):
                     batch = []
         if batch:
             flush()
+        if tier == 'thorough':
+            # n = 7 for the stream-specific configurations
+            cfgs7 = [dict(encoding='utf-8', delim=',', policy='quoted_rfc', comment_prefix='#', has_header=False), dict(encoding='utf-8', delim=',', policy='quoted', comment_prefix=None, has_header=False),
+                     dict(encoding='binary', delim=',', policy='simple', comment_prefix='#', has_header=True)]
+            batch = []
+            for tup in itertools.product(ALPHABET, repeat=7):
+                counter += 1
+                if counter % nshards != shard:
+                    continue
+                batch.append(''.join(tup).encode())
+                if len(batch) >= 150:
+                    for cfg in cfgs7:
+                        run_jobs(drv, batch, cfg, stats, failures, seen, 'enum')
+                    for d in batch:
+                        stats.nontrivial_counted += count_nontrivial(d, 'binary') * len(cfgs7)
+                    batch = []
+            for cfg in cfgs7:
+                if batch:
+                    run_jobs(drv, batch, cfg, stats, failures, seen, 'enum')
+            maxn = 7
     finally:
         drv.close()
     stats.samples = [{'bytes': 'a,"\\r\\n#a', 'partitions': 63, 'policies': [p for p, _ in POLICIES]}]
